@@ -193,7 +193,7 @@ def grid_path(cfg):
         eps = 1e-3
         lat_v, lon_v = [], []
         for i in range(n):
-            b = boxes[i] or (glat[0], glat[-1] + 0.3, max(glon[0], -PI), min(glon[-1] + 0.5, PI))      # the whole grid, first grid lines included
+            b = boxes[i] or (glat[0], glat[-1] + 0.3, max(glon[0], -PI), min(glon[-1] + 0.5, PI) if glon[0] <= -PI else min(glon[-1] + 0.5, glon[0] + 3.1, PI))      # the whole grid, first grid lines included
             lat_v.append(sym(f'lat{i}', b[0], b[1]))
             lon_v.append(sym(f'lon{i}', b[2], b[3]))
         arr = (lambda v: np.array([float(x) for x in v])) if ex.concrete else obj
@@ -274,17 +274,10 @@ def cell_contains(glines, i, x):
     return lo
 
 
-def index_cell(glines, x, first_closed):
-    """cell index of a value: the i with g[i] < x <= g[i+1]; a value on the first grid line belongs to the first cell"""
-    out = {}
-    for i in range(len(glines)):
-        c = T.gt(L(x), L(float(glines[i]))) if not concrete() else (L(x) > glines[i])
-        if i == 0 and first_closed:
-            c = T.ge(L(x), L(float(glines[0]))) if not concrete() else (L(x) >= glines[0])
-        if i + 1 < len(glines):
-            c = T.and_(c, (L(x) <= L(float(glines[i + 1]))) if not concrete() else (L(x) <= glines[i + 1]))
-        out[i] = c
-    return out
+def index_cell(glines, x, first_closed=True):
+    """condition under which index i is a correct cell for the value: the value lies in the closed cell i (so either
+    half-open convention is accepted; the code's is (g[i], g[i+1]] with the first grid line in the first cell)"""
+    return {i: cell_contains(glines, i, x) for i in range(len(glines))}
 
 
 ALSO_C04 = {
@@ -436,15 +429,17 @@ def obligations(o):
     edge1, edge2 = (PI, -PI) if east else (-PI, PI)
     f_lat, f_lon = _flat(first['lats']), _flat(first['lons'])
     s_lat, s_lon = _flat(second['lats']), _flat(second['lons'])
-    ok1 = len(f_lat) == c + 2 and all(same_term(a, b) for a, b in zip(f_lat[: c + 1] + f_lon[: c + 1], lats[: c + 1] + lons[: c + 1])) and same_term(f_lat[-1], lats[c]) and same_term(f_lon[-1], edge1)
-    ok2 = len(s_lat) == n - c and all(same_term(a, b) for a, b in zip(s_lat[1:] + s_lon[1:], lats[c + 1:] + lons[c + 1:])) and same_term(s_lat[0], lats[c]) and same_term(s_lon[0], edge2)
+    # the crossing latitude is the implementation's choice (the code uses the latitude of the first point); it only has
+    # to be the same point of the meridian on both sides
+    ok1 = len(f_lat) == c + 2 and all(same_term(a, b) for a, b in zip(f_lat[: c + 1] + f_lon[: c + 1], lats[: c + 1] + lons[: c + 1])) and same_term(f_lon[-1], edge1)
+    ok2 = len(s_lat) == n - c and all(same_term(a, b) for a, b in zip(s_lat[1:] + s_lon[1:], lats[c + 1:] + lons[c + 1:])) and same_term(s_lat[0], f_lat[-1]) and same_term(s_lon[0], edge2)
     yield 'C04.split.first_part_ends_at_the_meridian_on_the_side_of_the_first_point', f'crossing segment {c}: ends at lon {f_lon[-1]}', ok1
-    yield 'C04.split.second_part_starts_at_the_opposite_meridian', f'crossing segment {c}: starts at lon {s_lon[0]}', ok2
+    yield 'C04.split.second_part_starts_at_the_same_point_of_the_opposite_meridian', f'crossing segment {c}: starts at lon {s_lon[0]}', ok2
     if not (ok1 and ok2):
         return
     orc = o['orc']
-    d1 = orc.find(lons[c], lats[c], edge1, lats[c])
-    d2 = orc.find(edge2, lats[c], lons[c + 1], lats[c + 1])
+    d1 = orc.find(lons[c], lats[c], edge1, f_lat[-1])
+    d2 = orc.find(edge2, s_lat[0], lons[c + 1], lats[c + 1])
     yield 'C04.split.part_lengths_are_geodesics_to_and_from_the_meridian', '', d1 is not None and d2 is not None
     for kk, var in enumerate(o['integ']):
         var = _flat(var)
